@@ -3,7 +3,8 @@
 
    The model follows lsp/jsonrpc2/conn.go, one action per critical section / blocking point:
 
-     Call:    reg     pendingMu { pending[id] = rchan }                         (hook "reg")
+     Call:    alloc   id = NewNumberID(atomic.AddInt32(&c.seq, 1))  -- ONE atomic step
+              reg     pendingMu { pending[id] = rchan }                         (hook "reg")
               acq     writeMu.Lock                                              (hook "wbeg")
               refuse  stream.Write sees ctx.Done() and writes nothing
               whdr    stream.Write: header bytes reach the wire    \  two steps, so that the
@@ -12,72 +13,139 @@
               recv    select: <-rchan            cancelled  select: <-ctx.Done()
               del     deferred: pendingMu { delete(pending, id) }               (hook "del")
      Notify:  acq, whdr, wbody, rel
-     run:     take    stream.Read returned the next message of the peer
+     run:     take    stream.Read returned the next message of the peer; its id went through ID.UnmarshalJSON
               lookup  pendingMu { rchan, ok = pending[msg.id] }                 (hook "disp")
               send    rchan <- msg
-              a call of the peer is answered synchronously by the handler: acq, whdr, wbody, rel as writer 0
+              a call of the peer is answered synchronously by the handler with the id it carried:
+              acq, whdr, wbody, rel as writer 0
      environment: cancel(c) at any time; the peer answers a call it has received completely at any later
-              time, in any order, or never (reply), sends notifications (pnotify) and calls (pcall).
+              time, in any order, or never (reply), sends notifications (pnotify), calls with ids of its own
+              choice (pcall) and responses nobody asked for (stray).
 
-   Caller c uses id c (the real conn draws ids from an atomic counter; only their uniqueness matters).
-   Constants flip the model into plausible bugs: UseWriteMu = FALSE, ChanCap = 0, RegisterFirst = FALSE. *)
+   IDS ARE TYPED VALUES.  A JSON-RPC id is a number or a string; the string "7" and the number 7 are
+   different ids.  An id is [t |-> "num" | "str", v |-> its text, n |-> the integer that text denotes as a
+   decimal int32 literal, or NoNum].  The conn draws its own ids from a counter (alloc); `pending` maps a
+   typed id to the caller whose reply channel is registered under it.  The peer's vocabulary contains the
+   confusable ids: strings whose text is the decimal text of a pending numeric id ("1", "01"), a number that
+   equals one of the conn's own ids used as the id of a call of the PEER (the two id spaces are independent).
+   DecId is ID.UnmarshalJSON: as coded a JSON string token stays a string id whatever its text.
+
+   Every call carries its own marker in its payload (caller c: marker c) and the peer echoes the marker of
+   the request it answers; result[c] is the marker of the response that Call returned, so a response that
+   reached the wrong caller is visible as result[c] # c.
+
+   Constants flip the model into plausible bugs: UseWriteMu = FALSE, ChanCap = 0, RegisterFirst = FALSE,
+   AtomicAlloc = FALSE (AddInt32 and LoadInt32 as two steps), IdDecode = "unquote" (quoted numerals decode
+   as numbers). *)
 EXTENDS Integers, Sequences, FiniteSets, TLC, Json
 
 CONSTANTS NC,            \* callers 1..NC
           NN,            \* notifiers 11..10+NN
           MaxPN, MaxPC,  \* notifications / calls the peer may send
+          MaxStray,      \* responses nobody asked for
           UseWriteMu,    \* TRUE as coded
           ChanCap,       \* 1 as coded (buffered reply channel); 0 = unbuffered
-          RegisterFirst  \* TRUE as coded: pending insert before the call is sent
+          RegisterFirst, \* TRUE as coded: pending insert before the call is sent
+          AtomicAlloc,   \* TRUE as coded: the id is the value returned by ONE atomic add
+          IdDecode,      \* "strict" as coded | "unquote": a JSON string that looks like a number decodes as that number
+          IdVocab        \* "full" | "small": how many confusable ids the peer may choose from (bounds the state space only)
 
 Callers   == 1..NC
 Notifiers == 11..(10 + NN)
 Rd        == 0                      \* run's goroutine, as a writer of replies to the peer's calls
 Writers   == Callers \cup Notifiers \cup {Rd}
 None      == -1
-CANCEL    == -1                     \* result values: a caller id = "the response carrying that id"
+CANCEL    == -1                     \* result values: a caller's marker = "the response to that caller's request"
 WERR      == -2
 NORES     == 0
+STRAY     == 99                     \* marker of a response the peer sent without a request
+
+-----------------------------------------------------------------------------
+(* typed ids *)
+NoNum == -1000
+NumId(k)    == [t |-> "num", v |-> ToString(k), n |-> k]
+StrId(s, k) == [t |-> "str", v |-> s, n |-> k]      \* k: what the text denotes as a decimal integer, or NoNum
+NoId        == [t |-> "none", v |-> "", n |-> NoNum]
+
+\* ID.UnmarshalJSON applied to the JSON token the sender wrote (number token for "num", string token for "str")
+DecId(id) == IF id.t = "str" /\ IdDecode = "unquote" /\ id.n # NoNum THEN NumId(id.n) ELSE id
+
+\* ids the peer may put on a response nobody asked for: the decimal text of every id the conn can have
+\* pending, as a STRING; the same zero-padded; a number the conn never used; an ordinary string
+StrayIdSeq == IF IdVocab = "small" THEN <<StrId("1", 1), NumId(1000)>>
+              ELSE [k \in 1..NC |-> StrId(ToString(k), k)]
+                   \o <<StrId("0" \o ToString(1), 1), NumId(1000), StrId("life", NoNum)>>
+\* ids the peer may give its own calls: a number equal to the conn's first call id, numeric-looking
+\* strings (also negative and zero-padded), an ordinary string
+PeerCallIdSeq == IF IdVocab = "small" THEN <<NumId(1), StrId("1", 1)>>
+                 ELSE <<NumId(1), StrId("1", 1), StrId("42", 42), StrId("007", 7), StrId("-1", 0 - 1), StrId("p1", NoNum)>>
 
 VARIABLES pc,         \* [Writers -> control state]
           cancelled,  \* [Callers -> BOOLEAN]  the call's context has been cancelled
           werr,       \* [Callers -> BOOLEAN]  stream.Write refused (context already done)
-          result,     \* [Callers -> NORES | CANCEL | WERR | id of the response returned]
-          pending,    \* ids in conn.pending
-          chan,       \* [Callers -> Seq(ids)] buffered content of the call's reply channel
+          result,     \* [Callers -> NORES | CANCEL | WERR | marker of the response returned]
+          seq,        \* conn.seq
+          idOf,       \* [Callers -> number of the id the call drew, 0 = none yet]
+          pending,    \* conn.pending: set of [id |-> typed id, c |-> caller whose channel is registered], one entry per id
+          chan,       \* [Callers -> Seq(markers)] buffered content of the call's reply channel
           mu,         \* holder of writeMu or None
           open,       \* writer whose header is on the wire without its body, or None
           wireBad,    \* some frame was interleaved with another
           got,        \* calls the peer has received completely
           replied,    \* calls the peer has answered
-          inq,        \* byte stream from the peer, as a queue of whole messages
-          rd,         \* run loop: [pc, id]
-          pn, pcalls  \* notifications / calls sent by the peer so far
+          inq,        \* byte stream from the peer, as a queue of whole messages [t, id (as written), tok]
+          rd,         \* run loop: [pc, wid (id as written), id (as decoded), tok, to]
+          pn,         \* notifications sent by the peer so far
+          strays,     \* stray responses sent by the peer so far
+          pcallIds,   \* ids of the calls the peer has sent, in order
+          pongs       \* ids carried by the responses the peer has received to its calls, in order
 
-vars == <<pc, cancelled, werr, result, pending, chan, mu, open, wireBad, got, replied, inq, rd, pn, pcalls>>
+vars == <<pc, cancelled, werr, result, seq, idOf, pending, chan, mu, open, wireBad, got, replied, inq, rd, pn, strays, pcallIds, pongs>>
 
-Resp(c) == [t |-> "resp", id |-> c]
-Notif   == [t |-> "notif", id |-> 0]
-PCall   == [t |-> "call", id |-> 0]
+MyId(c) == NumId(idOf[c])
+Msg(t, id, tok) == [t |-> t, id |-> id, tok |-> tok]
+RdIdle == [pc |-> "read", wid |-> NoId, id |-> NoId, tok |-> 0, to |-> 0]
+PendIds == {p.id : p \in pending}
+Owner(id) == (CHOOSE p \in pending : p.id = id).c
+\* a Go map assignment: an entry under the same key is replaced
+Put(m, id, c) == {p \in m : p.id # id} \cup {[id |-> id, c |-> c]}
 
 Init == /\ pc = [w \in Writers |-> "idle"]
         /\ cancelled = [c \in Callers |-> FALSE]
         /\ werr = [c \in Callers |-> FALSE]
         /\ result = [c \in Callers |-> NORES]
+        /\ seq = 0 /\ idOf = [c \in Callers |-> 0]
         /\ pending = {}
         /\ chan = [c \in Callers |-> <<>>]
         /\ mu = None /\ open = None /\ wireBad = FALSE
         /\ got = {} /\ replied = {}
         /\ inq = <<>>
-        /\ rd = [pc |-> "read", id |-> 0]
-        /\ pn = 0 /\ pcalls = 0
+        /\ rd = RdIdle
+        /\ pn = 0 /\ strays = 0 /\ pcallIds = <<>> /\ pongs = <<>>
 
 -----------------------------------------------------------------------------
 (* Call / Notify *)
-Register(c) == /\ c \in Callers /\ pc[c] = "idle"
+\* as coded: the id is the value the atomic add returns -- increment and read are one step
+Alloc(c) == /\ AtomicAlloc /\ c \in Callers /\ pc[c] = "idle"
+            /\ seq' = seq + 1
+            /\ idOf' = [idOf EXCEPT ![c] = seq + 1]
+            /\ pc' = [pc EXCEPT ![c] = "new"]
+            /\ UNCHANGED <<cancelled, werr, result, pending, chan, mu, open, wireBad, got, replied, inq, rd, pn, strays, pcallIds, pongs>>
+
+\* only in the AtomicAlloc = FALSE bug model: atomic.AddInt32, then atomic.LoadInt32 of whatever the counter is by then
+Incr(c) == /\ ~AtomicAlloc /\ c \in Callers /\ pc[c] = "idle"
+           /\ seq' = seq + 1
+           /\ pc' = [pc EXCEPT ![c] = "inc"]
+           /\ UNCHANGED <<cancelled, werr, result, idOf, pending, chan, mu, open, wireBad, got, replied, inq, rd, pn, strays, pcallIds, pongs>>
+Load(c) == /\ ~AtomicAlloc /\ c \in Callers /\ pc[c] = "inc"
+           /\ idOf' = [idOf EXCEPT ![c] = seq]
+           /\ pc' = [pc EXCEPT ![c] = "new"]
+           /\ UNCHANGED <<cancelled, werr, result, seq, pending, chan, mu, open, wireBad, got, replied, inq, rd, pn, strays, pcallIds, pongs>>
+
+Register(c) == /\ c \in Callers /\ pc[c] = "new"
                /\ pc' = [pc EXCEPT ![c] = "reg"]
-               /\ pending' = IF RegisterFirst THEN pending \cup {c} ELSE pending
-               /\ UNCHANGED <<cancelled, werr, result, chan, mu, open, wireBad, got, replied, inq, rd, pn, pcalls>>
+               /\ pending' = IF RegisterFirst THEN Put(pending, MyId(c), c) ELSE pending
+               /\ UNCHANGED <<cancelled, werr, result, seq, idOf, chan, mu, open, wireBad, got, replied, inq, rd, pn, strays, pcallIds, pongs>>
 
 WantsToWrite(w) == \/ w \in Callers /\ pc[w] = "reg"
                    \/ w \in Notifiers /\ pc[w] = "idle"
@@ -87,26 +155,29 @@ Acquire(w) == /\ WantsToWrite(w)
               /\ UseWriteMu => mu = None
               /\ mu' = IF UseWriteMu THEN w ELSE mu
               /\ pc' = [pc EXCEPT ![w] = "hdr"]
-              /\ UNCHANGED <<cancelled, werr, result, pending, chan, open, wireBad, got, replied, inq, rd, pn, pcalls>>
+              /\ UNCHANGED <<cancelled, werr, result, seq, idOf, pending, chan, open, wireBad, got, replied, inq, rd, pn, strays, pcallIds, pongs>>
 
 \* stream.Write checks the context once, before the first byte
 Refuse(c) == /\ c \in Callers /\ pc[c] = "hdr" /\ cancelled[c]
              /\ pc' = [pc EXCEPT ![c] = "rel"]
              /\ werr' = [werr EXCEPT ![c] = TRUE]
-             /\ UNCHANGED <<cancelled, result, pending, chan, mu, open, wireBad, got, replied, inq, rd, pn, pcalls>>
+             /\ UNCHANGED <<cancelled, result, seq, idOf, pending, chan, mu, open, wireBad, got, replied, inq, rd, pn, strays, pcallIds, pongs>>
 
 WriteHdr(w) == /\ pc[w] = "hdr"
                /\ pc' = [pc EXCEPT ![w] = "body"]
                /\ wireBad' = (wireBad \/ open # None)
                /\ open' = w
-               /\ UNCHANGED <<cancelled, werr, result, pending, chan, mu, got, replied, inq, rd, pn, pcalls>>
+               /\ UNCHANGED <<cancelled, werr, result, seq, idOf, pending, chan, mu, got, replied, inq, rd, pn, strays, pcallIds, pongs>>
 
+\* the body of a call carries MyId(w) and the marker w; the body of the run loop's response carries the id
+\* of the peer's call as the conn decoded it
 WriteBody(w) == /\ pc[w] = "body"
                 /\ pc' = [pc EXCEPT ![w] = "rel"]
                 /\ wireBad' = (wireBad \/ open # w)
                 /\ open' = IF open = w THEN None ELSE open
                 /\ got' = IF w \in Callers THEN got \cup {w} ELSE got
-                /\ UNCHANGED <<cancelled, werr, result, pending, chan, mu, replied, inq, rd, pn, pcalls>>
+                /\ pongs' = IF w = Rd THEN Append(pongs, rd.id) ELSE pongs
+                /\ UNCHANGED <<cancelled, werr, result, seq, idOf, pending, chan, mu, replied, inq, rd, pn, strays, pcallIds>>
 
 Release(w) == /\ pc[w] = "rel"
               /\ mu' = IF UseWriteMu THEN None ELSE mu
@@ -116,79 +187,94 @@ Release(w) == /\ pc[w] = "rel"
                       /\ rd' = rd
                  ELSE IF w \in Notifiers
                  THEN pc' = [pc EXCEPT ![w] = "done"] /\ UNCHANGED <<result, rd>>
-                 ELSE pc' = [pc EXCEPT ![w] = "idle"] /\ rd' = [pc |-> "read", id |-> 0] /\ UNCHANGED result
-              /\ UNCHANGED <<cancelled, werr, pending, chan, open, wireBad, got, replied, inq, pn, pcalls>>
+                 ELSE pc' = [pc EXCEPT ![w] = "idle"] /\ rd' = RdIdle /\ UNCHANGED result
+              /\ UNCHANGED <<cancelled, werr, seq, idOf, pending, chan, open, wireBad, got, replied, inq, pn, strays, pcallIds, pongs>>
 
 \* only in the RegisterFirst = FALSE bug model: the pending insert happens after the call was sent
 LateRegister(c) == /\ c \in Callers /\ pc[c] = "late"
                    /\ pc' = [pc EXCEPT ![c] = "wait"]
-                   /\ pending' = pending \cup {c}
-                   /\ UNCHANGED <<cancelled, werr, result, chan, mu, open, wireBad, got, replied, inq, rd, pn, pcalls>>
+                   /\ pending' = Put(pending, MyId(c), c)
+                   /\ UNCHANGED <<cancelled, werr, result, seq, idOf, chan, mu, open, wireBad, got, replied, inq, rd, pn, strays, pcallIds, pongs>>
 
 RecvResp(c) == /\ c \in Callers /\ pc[c] = "wait" /\ chan[c] # <<>>
                /\ result' = [result EXCEPT ![c] = Head(chan[c])]
                /\ chan' = [chan EXCEPT ![c] = Tail(@)]
                /\ pc' = [pc EXCEPT ![c] = "del"]
-               /\ UNCHANGED <<cancelled, werr, pending, mu, open, wireBad, got, replied, inq, rd, pn, pcalls>>
+               /\ UNCHANGED <<cancelled, werr, seq, idOf, pending, mu, open, wireBad, got, replied, inq, rd, pn, strays, pcallIds, pongs>>
 
 Cancelled(c) == /\ c \in Callers /\ pc[c] = "wait" /\ cancelled[c]
                 /\ result' = [result EXCEPT ![c] = CANCEL]
                 /\ pc' = [pc EXCEPT ![c] = "del"]
-                /\ UNCHANGED <<cancelled, werr, pending, chan, mu, open, wireBad, got, replied, inq, rd, pn, pcalls>>
+                /\ UNCHANGED <<cancelled, werr, seq, idOf, pending, chan, mu, open, wireBad, got, replied, inq, rd, pn, strays, pcallIds, pongs>>
 
+\* delete(c.pending, id): removes whatever is registered under the call's id
 DeletePending(c) == /\ c \in Callers /\ pc[c] = "del"
-                    /\ pending' = pending \ {c}
+                    /\ pending' = {p \in pending : p.id # MyId(c)}
                     /\ pc' = [pc EXCEPT ![c] = "done"]
-                    /\ UNCHANGED <<cancelled, werr, result, chan, mu, open, wireBad, got, replied, inq, rd, pn, pcalls>>
+                    /\ UNCHANGED <<cancelled, werr, result, seq, idOf, chan, mu, open, wireBad, got, replied, inq, rd, pn, strays, pcallIds, pongs>>
 
 -----------------------------------------------------------------------------
 (* run loop *)
-\* ReaderTake/Lookup/Send are labelled with the id they concern (0: a notification or call of the peer)
+\* ReaderTake/Lookup/Send are labelled with the marker of the message they concern
+\* (a caller, 0: a notification or call of the peer, STRAY)
 ReaderTake == /\ rd.pc = "read" /\ inq # <<>>
               /\ inq' = Tail(inq)
               /\ LET m == Head(inq) IN
-                 CASE m.t = "resp"  -> rd' = [pc |-> "lookup", id |-> m.id] /\ pc' = pc
+                 CASE m.t = "resp"  -> rd' = [pc |-> "lookup", wid |-> m.id, id |-> DecId(m.id), tok |-> m.tok, to |-> 0] /\ pc' = pc
                    [] m.t = "notif" -> rd' = rd /\ pc' = pc
-                   [] OTHER         -> rd' = [pc |-> "handle", id |-> 0] /\ pc' = [pc EXCEPT ![Rd] = "want"]
-              /\ UNCHANGED <<cancelled, werr, result, pending, chan, mu, open, wireBad, got, replied, pn, pcalls>>
+                   [] OTHER         -> rd' = [pc |-> "handle", wid |-> m.id, id |-> DecId(m.id), tok |-> 0, to |-> 0] /\ pc' = [pc EXCEPT ![Rd] = "want"]
+              /\ UNCHANGED <<cancelled, werr, result, seq, idOf, pending, chan, mu, open, wireBad, got, replied, pn, strays, pcallIds, pongs>>
 
+\* rchan, ok := c.pending[msg.id]: map lookup by the typed id
 ReaderLookup == /\ rd.pc = "lookup"
-                /\ rd' = IF rd.id \in pending THEN [rd EXCEPT !.pc = "send"] ELSE [pc |-> "read", id |-> 0]
-                /\ UNCHANGED <<pc, cancelled, werr, result, pending, chan, mu, open, wireBad, got, replied, inq, pn, pcalls>>
+                /\ rd' = IF rd.id \in PendIds THEN [rd EXCEPT !.pc = "send", !.to = Owner(rd.id)] ELSE RdIdle
+                /\ UNCHANGED <<pc, cancelled, werr, result, seq, idOf, pending, chan, mu, open, wireBad, got, replied, inq, pn, strays, pcallIds, pongs>>
 
 \* can the send on the reply channel complete now?
 CanSend(c) == IF ChanCap >= 1 THEN Len(chan[c]) < ChanCap ELSE pc[c] = "wait"
-ReaderSend == /\ rd.pc = "send" /\ CanSend(rd.id)
+ReaderSend == /\ rd.pc = "send" /\ CanSend(rd.to)
               /\ IF ChanCap >= 1
-                 THEN /\ chan' = [chan EXCEPT ![rd.id] = Append(@, rd.id)]
+                 THEN /\ chan' = [chan EXCEPT ![rd.to] = Append(@, rd.tok)]
                       /\ UNCHANGED <<pc, result>>
-                 ELSE /\ result' = [result EXCEPT ![rd.id] = rd.id]          \* rendezvous with the waiting caller
-                      /\ pc' = [pc EXCEPT ![rd.id] = "del"]
+                 ELSE /\ result' = [result EXCEPT ![rd.to] = rd.tok]          \* rendezvous with the waiting caller
+                      /\ pc' = [pc EXCEPT ![rd.to] = "del"]
                       /\ chan' = chan
-              /\ rd' = [pc |-> "read", id |-> 0]
-              /\ UNCHANGED <<cancelled, werr, pending, mu, open, wireBad, got, replied, inq, pn, pcalls>>
+              /\ rd' = RdIdle
+              /\ UNCHANGED <<cancelled, werr, seq, idOf, pending, mu, open, wireBad, got, replied, inq, pn, strays, pcallIds, pongs>>
 
 -----------------------------------------------------------------------------
 (* environment *)
 Cancel(c) == /\ c \in Callers /\ ~cancelled[c] /\ pc[c] # "done"
              /\ cancelled' = [cancelled EXCEPT ![c] = TRUE]
-             /\ UNCHANGED <<pc, werr, result, pending, chan, mu, open, wireBad, got, replied, inq, rd, pn, pcalls>>
+             /\ UNCHANGED <<pc, werr, result, seq, idOf, pending, chan, mu, open, wireBad, got, replied, inq, rd, pn, strays, pcallIds, pongs>>
 
+\* the response carries the id of the request as it was on the wire and echoes the request's marker
 PeerReply(c) == /\ c \in got \ replied
                 /\ replied' = replied \cup {c}
-                /\ inq' = Append(inq, Resp(c))
-                /\ UNCHANGED <<pc, cancelled, werr, result, pending, chan, mu, open, wireBad, got, rd, pn, pcalls>>
+                /\ inq' = Append(inq, Msg("resp", MyId(c), c))
+                /\ UNCHANGED <<pc, cancelled, werr, result, seq, idOf, pending, chan, mu, open, wireBad, got, rd, pn, strays, pcallIds, pongs>>
 
-PeerNotify == /\ pn < MaxPN /\ pn' = pn + 1 /\ inq' = Append(inq, Notif)
-              /\ UNCHANGED <<pc, cancelled, werr, result, pending, chan, mu, open, wireBad, got, replied, rd, pcalls>>
+PeerNotify == /\ pn < MaxPN /\ pn' = pn + 1 /\ inq' = Append(inq, Msg("notif", NoId, 0))
+              /\ UNCHANGED <<pc, cancelled, werr, result, seq, idOf, pending, chan, mu, open, wireBad, got, replied, rd, strays, pcallIds, pongs>>
 
-PeerCall == /\ pcalls < MaxPC /\ pcalls' = pcalls + 1 /\ inq' = Append(inq, PCall)
-            /\ UNCHANGED <<pc, cancelled, werr, result, pending, chan, mu, open, wireBad, got, replied, rd, pn>>
+PeerCall(k) == /\ Len(pcallIds) < MaxPC /\ k \in 1..Len(PeerCallIdSeq)
+               /\ pcallIds' = Append(pcallIds, PeerCallIdSeq[k])
+               /\ inq' = Append(inq, Msg("call", PeerCallIdSeq[k], 0))
+               /\ UNCHANGED <<pc, cancelled, werr, result, seq, idOf, pending, chan, mu, open, wireBad, got, replied, rd, pn, strays, pongs>>
+
+\* a response that answers no request of this conn
+PeerStray(k) == /\ strays < MaxStray /\ k \in 1..Len(StrayIdSeq)
+                /\ strays' = strays + 1
+                /\ inq' = Append(inq, Msg("resp", StrayIdSeq[k], STRAY))
+                /\ UNCHANGED <<pc, cancelled, werr, result, seq, idOf, pending, chan, mu, open, wireBad, got, replied, rd, pn, pcallIds, pongs>>
 
 -----------------------------------------------------------------------------
 (* labelled transition relation: Next, the simulation and the trace spec all go through Do *)
 Lab(a, w) == [a |-> a, w |-> w]
-Do(l) == CASE l.a = "reg"       -> Register(l.w)
+Do(l) == CASE l.a = "alloc"     -> Alloc(l.w)
+           [] l.a = "incr"      -> Incr(l.w)
+           [] l.a = "load"      -> Load(l.w)
+           [] l.a = "reg"       -> Register(l.w)
            [] l.a = "acq"       -> Acquire(l.w)
            [] l.a = "refuse"    -> Refuse(l.w)
            [] l.a = "whdr"      -> WriteHdr(l.w)
@@ -198,27 +284,30 @@ Do(l) == CASE l.a = "reg"       -> Register(l.w)
            [] l.a = "recv"      -> RecvResp(l.w)
            [] l.a = "cancelled" -> Cancelled(l.w)
            [] l.a = "del"       -> DeletePending(l.w)
-           [] l.a = "take"      -> ReaderTake /\ l.w = Head(inq).id
-           [] l.a = "lookup"    -> ReaderLookup /\ l.w = rd.id
-           [] l.a = "send"      -> ReaderSend /\ l.w = rd.id
+           [] l.a = "take"      -> ReaderTake /\ l.w = Head(inq).tok
+           [] l.a = "lookup"    -> ReaderLookup /\ l.w = rd.tok
+           [] l.a = "send"      -> ReaderSend /\ l.w = rd.tok
            [] l.a = "cancel"    -> Cancel(l.w)
            [] l.a = "reply"     -> PeerReply(l.w)
            [] l.a = "pnotify"   -> PeerNotify
-           [] l.a = "pcall"     -> PeerCall
+           [] l.a = "pcall"     -> PeerCall(l.w)
+           [] l.a = "stray"     -> PeerStray(l.w)
 
-CallerActs == {"reg", "refuse", "late", "recv", "cancelled", "del", "cancel", "reply"}
+CallerActs == {"alloc", "incr", "load", "reg", "refuse", "late", "recv", "cancelled", "del", "cancel", "reply"}
 WriterActs == {"acq", "whdr", "wbody", "rel"}
 Labels == {Lab(a, c) : a \in CallerActs, c \in Callers}
           \cup {Lab(a, w) : a \in WriterActs, w \in Writers}
-          \cup {Lab(a, c) : a \in {"take", "lookup", "send"}, c \in Callers \cup {0}}
-          \cup {Lab(a, 0) : a \in {"pnotify", "pcall"}}
-EnvActs == {"cancel", "reply", "pnotify", "pcall"}
+          \cup {Lab(a, c) : a \in {"take", "lookup", "send"}, c \in Callers \cup {0, STRAY}}
+          \cup {Lab("pnotify", 0)}
+          \cup {Lab("pcall", k) : k \in 1..Len(PeerCallIdSeq)}
+          \cup {Lab("stray", k) : k \in 1..Len(StrayIdSeq)}
+EnvActs == {"cancel", "reply", "pnotify", "pcall", "stray"}
 
 Next == \E l \in Labels : Do(l)
 
 \* the conn's own steps are fair (Go's mutex does not starve a waiter: strong fairness for Acquire);
-\* nothing is assumed about the environment
-ConnLabels == {l \in Labels : l.a \notin EnvActs /\ l.a # "reg"}
+\* nothing is assumed about the environment; starting a call (alloc / incr) is the caller's choice
+ConnLabels == {l \in Labels : l.a \notin EnvActs /\ l.a \notin {"alloc", "incr"}}
 Fairness == /\ \A l \in {x \in ConnLabels : x.a # "acq"} : WF_vars(Do(l))
             /\ \A w \in Writers : SF_vars(Acquire(w))
 Spec == Init /\ [][Next]_vars /\ Fairness
@@ -226,18 +315,33 @@ Spec == Init /\ [][Next]_vars /\ Fairness
 -----------------------------------------------------------------------------
 (* properties *)
 InFlight == {"reg", "hdr", "body", "rel", "late", "wait", "del"}
+IsPrefix(a, b) == Len(a) <= Len(b) /\ SubSeq(b, 1, Len(a)) = a
 
-TypeOK == /\ pending \subseteq Callers /\ got \subseteq Callers /\ replied \subseteq got
+TypeOK == /\ {p.c : p \in pending} \subseteq Callers /\ got \subseteq Callers /\ replied \subseteq got
           /\ mu \in Writers \cup {None} /\ open \in Writers \cup {None}
-          /\ \A c \in Callers : result[c] \in Callers \cup {NORES, CANCEL, WERR}
+          /\ \A c \in Callers : result[c] \in Callers \cup {NORES, CANCEL, WERR, STRAY}
+          /\ seq \in 0..(2 * NC) /\ \A c \in Callers : idOf[c] \in 0..seq
 
-\* a call returns only the response carrying its id, or its own cancellation
+\* a call returns only the response to its own request (the one carrying its id), or its own cancellation
 Matched == \A c \in Callers : pc[c] \in {"del", "done"} =>
                \/ result[c] = c
                \/ result[c] \in {CANCEL, WERR} /\ cancelled[c]
 
 \* ... and it only returns a response the peer actually sent
 NoInventedResponse == \A c \in Callers : result[c] = c => c \in replied
+
+\* the ids drawn by the calls of one conn are pairwise distinct (in particular those pending together)
+UniqueIds == \A c1, c2 \in Callers : (c1 # c2 /\ idOf[c1] # 0 /\ idOf[c2] # 0) => idOf[c1] # idOf[c2]
+\* pending is a map: one entry per id, and the entry of an id belongs to the call that drew it
+PendingIsMap == \A p, q \in pending : p.id = q.id => p = q
+PendingOwned == \A p \in pending : p.id = MyId(p.c)
+
+\* the id the run loop works with is the id the peer wrote, including its type
+IdTypePreserved == rd.pc # "read" => rd.id = rd.wid
+\* a response is handed only to the call whose id has the same type and value
+DispatchedToOwner == rd.pc = "send" => (rd.tok = rd.to /\ rd.wid = MyId(rd.to))
+\* the peer's calls are answered, in order, with exactly the ids they carried
+PeerCallsEchoed == IsPrefix(pongs, pcallIds)
 
 FramesNeverInterleave == ~wireBad
 
@@ -246,13 +350,13 @@ MutexOK == UseWriteMu => Cardinality({w \in Writers : pc[w] \in {"hdr", "body", 
 \* the run loop is never stuck on a reply channel: whenever it is about to send, either the send can
 \* complete at once or (unbuffered model) the caller is still on its way to the select
 ReaderNeverBlocks == rd.pc = "send" =>
-    \/ CanSend(rd.id)
-    \/ ChanCap = 0 /\ pc[rd.id] \in {"reg", "hdr", "body", "rel", "late"}
+    \/ CanSend(rd.to)
+    \/ ChanCap = 0 /\ pc[rd.to] \in {"reg", "hdr", "body", "rel", "late"}
 
 \* pending holds exactly the calls in flight (as coded: registered before sending, removed on return)
-PendingExact == RegisterFirst => pending = {c \in Callers : pc[c] \in InFlight}
+PendingExact == RegisterFirst => {p.c : p \in pending} = {c \in Callers : pc[c] \in InFlight}
 \* "registered before sending": no byte of a call is on the wire while its id is not in pending
-RegisteredBeforeSending == \A c \in Callers : pc[c] \in {"body", "rel", "late"} => c \in pending
+RegisteredBeforeSending == \A c \in Callers : pc[c] \in {"body", "rel", "late"} => MyId(c) \in PendIds
 PendingEmptyAtQuiescence == (\A c \in Callers : pc[c] \in {"idle", "done"}) => pending = {}
 
 \* every call whose response arrives or whose context is cancelled returns
